@@ -948,6 +948,12 @@ def cases(tier, seed):
         out.append(_ck(_hpo(_case("offline", "CQN", s(), obs=obs, pop=3, evo_steps=3))))
     out.append(_hpo(_case("offline", "CQN", s(), obs="dict", init_steps=[0, 4], gens=2), mut="rl_hp"))
     out.append(_case("offline", "DQN", s(), info_only=True))
+    # the documented early stop in every loop that has one: a resumed population (>= 100 generations on record after a
+    # few more) whose fitness is above the target, so the early-return path is really taken
+    out.append(_case("offline", "CQN", s(), target=-1e9, steps_len=97, gens=6, evo_steps=3))
+    out.append(_case("on", "PPO", s(), num_envs=2, learn_step=4, evo_steps=4, target=-1e9, steps_len=98, gens=5))
+    out.append(_case("ma_off", "MADDPG", s(), num_envs=2, learn_step=2, evo_steps=4, target=-1e9, steps_len=97, gens=6))
+    out.append(_case("ma_on", "IPPO", s(), num_envs=2, learn_step=4, evo_steps=4, target=-1e9, steps_len=98, gens=5))
     for algo in LOOP_ALGOS["bandit"]:
         out.append(_case("bandit", algo, s()))  # the real BanditEnv (float64 contexts)
         out.append(_case("bandit", algo, s(), env_mode="bandit_f32"))
